@@ -22,7 +22,6 @@ class PureFunction(object):
         self._state_change_allowed = True
         self._allobjparams = self._get_all_obj_params_init()
         self._uniq = Uniquifier(self._allobjparams)
-        self._cur_objparams = self._uniq.get_unique_objs()
         self._fcntocall = fcntocall
 
         # restore stack stores list of (objparams, identical)
@@ -59,13 +58,11 @@ class PureFunction(object):
         if not identical:
             allobjparams = self._uniq.map_unique_objs(objparams)
             self._set_all_obj_params(allobjparams)
-            self._cur_objparams = list(objparams)
 
     def restore_objparams(self):
         old_allobjparams, identical = self._restore_stack.pop(-1)
         if not identical:
             self._set_all_obj_params(old_allobjparams)
-            self._cur_objparams = self._uniq.get_unique_objs(old_allobjparams)
 
     @contextmanager
     def useobjparams(self, objparams: List):
